@@ -950,7 +950,8 @@ class Object(ObjectAliasMixin):
             return self.members[name].path
 
         # Name unknown and no more parent scope, could be a built-in.
-        if self.parent is None:
+        # The globals of a module are the last scope: the names of its parent package are not visible in it.
+        if self.parent is None or self.is_module:
             raise NameResolutionError(f"{name} could not be resolved in the scope of {self.path}")
 
         # Name is parent, non-module object.
